@@ -32,6 +32,7 @@ RULE = (
     "program, verbs, URIs, static decorations) is executed for real and the wire log is decoded by a fresh C2Http per "
     "key variant (RSA only, aes_rand, aes_rand+RSA, AES+HMAC, AES without HMAC verification). Oracle: packets yielded "
     "== packets sent, in order. non-trivial = the history carries at least one task or callback"
+    ". Added events: a task with command id 6, a batch of callback messages encoded by the library's own post transform, a changed self-description between check-ins; configurations with base64 data in the URI / GET callbacks; beacon-id and reconfigured-client families; a consumer that takes one packet per message. "
 )
 ASSUMPTIONS = [
     "one session per decoder (external session tracking is documented)",
